@@ -64,7 +64,6 @@ Section Top.
   Proof. reflexivity. Qed.
 
   Lemma bio_entries_spec kvs :
-    (forall k j, In (k, j) kvs -> strip_prefix c19_biometric_prefix k <> Some []) ->
     match biometric_entries b64 kvs with
     | Ok l =>
       (forall k v, In (k, v) l -> fam_ok FamNonEmpty c19_biometric_prefix k = true /\
@@ -76,13 +75,30 @@ Section Top.
     | Panic _ => False
     end.
   Proof.
-    induction kvs as [|[k v] r IH]; intro Hne; cbn [biometric_entries].
+    induction kvs as [|[k v] r IH]; cbn [biometric_entries].
     - split; [intros k v []|intros k j []].
-    - assert (IH' := IH (fun k' j' H => Hne k' j' (or_intror H))). clear IH.
-      destruct (strip_prefix c19_biometric_prefix k) as [sfx|] eqn:P.
-      + assert (Fk : fam_ok FamNonEmpty c19_biometric_prefix k = true).
-        { rewrite fam_bio, P. destruct sfx; [exfalso; apply (Hne k v (or_introl eq_refl)); exact P|reflexivity]. }
-        pose proof (bytes_spec b64 [] v eq_refl) as B.
+    - assert (IH' := IH). clear IH.
+      assert (Hskip : fam_ok FamNonEmpty c19_biometric_prefix k = false ->
+                match biometric_entries b64 r with
+                | Ok l =>
+                  (forall k0 v0, In (k0, v0) l -> fam_ok FamNonEmpty c19_biometric_prefix k0 = true /\
+                     exists s x, In (k0, JStr s) ((k, v) :: r) /\ b64 s = Some x /\ v0 = CBytes x) /\
+                  (forall k0 j, In (k0, j) ((k, v) :: r) -> fam_ok FamNonEmpty c19_biometric_prefix k0 = true ->
+                     In k0 (map fst l) /\ dom0 b64 [] VBytes j = true)
+                | Err _ => exists k0 j, In (k0, j) ((k, v) :: r) /\ fam_ok FamNonEmpty c19_biometric_prefix k0 = true /\
+                                        dom0 b64 [] VBytes j = false
+                | Panic _ => False
+                end).
+      { intro Fk. destruct (biometric_entries b64 r) as [l|e|p].
+        * destruct IH' as [I1 I2]. split.
+          -- intros k' v' H. destruct (I1 k' v' H) as [F (s' & x' & Hin & Hb & Ev)]. split; [exact F|]. exists s', x'. split; [right; exact Hin|]. auto.
+          -- intros k' j' [H|H] F; [inversion H; subst; rewrite Fk in F; discriminate|apply (I2 k' j' H F)].
+        * destruct IH' as (k' & j' & Hin & F & N). exists k', j'. split; [right; exact Hin|]. split; assumption.
+        * exact IH'. }
+      destruct (strip_prefix c19_biometric_prefix k) as [sfx|] eqn:P; [destruct sfx as [|s0 sfx']|].
+      + apply Hskip. rewrite fam_bio, P. reflexivity.
+      + assert (Fk : fam_ok FamNonEmpty c19_biometric_prefix k = true) by (rewrite fam_bio, P; reflexivity).
+        pose proof (bytes_spec b64 [] v) as B. unfold leaf_spec0 in B.
         destruct (bytestr_leaf b64 v) as [cv|e|p] eqn:BL.
         * assert (exists s x, v = JStr s /\ b64 s = Some x /\ cv = CBytes x) as (s & x & -> & Hs & ->).
           { unfold bytestr_leaf, string_leaf, rbind in BL. destruct v; try discriminate.
@@ -99,12 +115,7 @@ Section Top.
           -- exact IH'.
         * exists k, v. split; [left; reflexivity|]. split; [exact Fk|exact B].
         * exact B.
-      + destruct (biometric_entries b64 r) as [l|e|p].
-        * destruct IH' as [I1 I2]. split.
-          -- intros k' v' H. destruct (I1 k' v' H) as [F (s' & x' & Hin & Hb & Ev)]. split; [exact F|]. exists s', x'. split; [right; exact Hin|]. auto.
-          -- intros k' j' [H|H] F; [inversion H; subst; rewrite fam_bio, P in F; discriminate|apply (I2 k' j' H F)].
-        * destruct IH' as (k' & j' & Hin & F & N). exists k', j'. split; [right; exact Hin|]. split; assumption.
-        * exact IH'.
+      + apply Hskip. rewrite fam_bio, P. reflexivity.
   Qed.
 
   (* ---------- issuing_jurisdiction ---------- *)
@@ -122,14 +133,13 @@ Section Top.
 
   Lemma jurisdiction_spec kvs f :
     fd_many f = false -> fd_wire f = b "issuing_jurisdiction" ->
-    jget (b "issuing_jurisdiction") kvs <> Some JNull ->
     match issuing_jurisdiction_map kvs with
     | Ok fv => jget (b "issuing_country") kvs <> None -> field_post (D8 kvs) (DOM8 kvs) jur_row kvs f fv
     | Err _ => record_dom (DOM8 kvs) mdl_dm kvs = false
     | Panic _ => False
     end.
   Proof.
-    intros Hm Hw Hnn. unfold issuing_jurisdiction_map.
+    intros Hm Hw. unfold issuing_jurisdiction_map.
     destruct (jget (b "issuing_jurisdiction") kvs) as [v|] eqn:J.
     2:{ intros _. split.
         - unfold row_dom. cbn [jur_row dm_presence dm_id]. rewrite J. reflexivity.
@@ -140,10 +150,14 @@ Section Top.
     { intros H1 H2. rewrite record_dom_rows. eapply forallb_false; [exact jur_row_in|].
       unfold row_dom. cbn [jur_row dm_presence dm_id dm_class]. rewrite J, H1. cbn [orb]. exact H2. }
     destruct v; cbn [string_leaf]; try (apply Hbad; reflexivity).
-    { exfalso. apply Hnn. reflexivity. }
+    { (* null: absent *)
+      intros _. split.
+      - unfold row_dom. cbn [jur_row dm_presence dm_id]. rewrite J. reflexivity.
+      - cbn [jur_row dm_presence dm_id dm_class]. split; [exact Hm|]. split; [exact Hw|]. left. split; [reflexivity|].
+        unfold supplied. rewrite J. reflexivity. }
     destruct (jget (b "issuing_country") kvs) as [c|] eqn:C.
     2:{ intro X. exfalso. apply X. reflexivity. }
-    pose proof (codetext_spec b64 kvs tbl_mdl_Alpha2 iso3166_alpha2 NormNone c alpha2_ok eq_refl eq_refl) as A.
+    pose proof (codetext_spec b64 kvs tbl_mdl_Alpha2 iso3166_alpha2 NormNone c alpha2_ok eq_refl) as A. unfold leaf_spec0 in A.
     assert (Hic : dom0 b64 kvs c_alpha2 c = false -> record_dom (DOM8 kvs) mdl_dm kvs = false).
     { intro H. rewrite record_dom_rows. eapply forallb_false; [exact ic_row_in|].
       unfold row_dom. cbn [ic_row dm_presence dm_id dm_class]. rewrite C. exact H. }
@@ -164,15 +178,6 @@ Section Top.
   Qed.
 
   (* ---------- the two namespace structs ---------- *)
-
-  Lemma known_record_rows n kvs : known_record n kvs = None ->
-    forall r, In r (ns_dm n) -> is_family r = false ->
-    forall j, jget (dm_id r) kvs = Some j -> known spec_fuel n (dm_class r) j = None.
-  Proof.
-    unfold known_record. intro K. apply first_known_none in K as [K _].
-    intros r Hr Hf j Hj. pose proof (first_known_list_none _ _ K r Hr) as Kr. cbn beta in Kr.
-    unfold is_family in Hf. destruct (dm_presence r); try discriminate; rewrite Hj in Kr; exact Kr.
-  Qed.
 
   Lemma row_of_field_regular n f r : row_of_field n f = Some r -> fd_many f || fd_dyn f = false -> is_family r = false.
   Proof.
@@ -195,14 +200,14 @@ Section Top.
   Lemma mdl_dm_wf : dm_wf_b mdl_dm = true. Proof. vm_compute. reflexivity. Qed.
   Lemma aamva_dm_wf : dm_wf_b aamva_dm = true. Proof. vm_compute. reflexivity. Qed.
 
-  Theorem ns_spec n kvs : NoDup (map fst kvs) -> known_record n kvs = None ->
+  Theorem ns_spec n kvs : NoDup (map fst kvs) ->
     match ns_from_json b64 n (JObj kvs) with
     | Ok vals => ns_den b64 n kvs (to_ns_map vals) = true /\ ns_dom b64 n kvs = true
     | Err _ => ns_dom b64 n kvs = false
     | Panic _ => False
     end.
   Proof.
-    intros Hnd K. unfold ns_from_json, ns_den, ns_dom, top_leaf.
+    intros Hnd. unfold ns_from_json, ns_den, ns_dom, top_leaf.
     change top_fuel with spec_fuel.
     assert (Hreg : forall f r, In f (ns_fields n) -> row_of_field n f = Some r -> fd_many f || fd_dyn f = false ->
               map (row_of_field n) (ns_fields n) = map Some (ns_dm n) ->
@@ -210,8 +215,7 @@ Section Top.
                        (ns_fields n) (ns_dm n) kvs f r).
     { intros f r Hin Hrow R Hiso. apply regular_field_ok; try assumption.
       - apply name_leaf_spec.
-      - apply (iso_in n _ _ f r Hiso Hin Hrow).
-      - apply (known_record_rows n kvs K r (iso_in n _ _ f r Hiso Hin Hrow) (row_of_field_regular n f r Hrow R)). }
+      - apply (iso_in n _ _ f r Hiso Hin Hrow). }
     destruct n.
     - (* org.iso.18013.5.1 *)
       apply (struct_spec Mdl _ _ _ _ (den_null b64 spec_fuel Mdl kvs) _ _ kvs fields_iso_mdl (dm_wf_b_spec _ mdl_dm_wf)).
@@ -245,10 +249,7 @@ Section Top.
         unfold field_ok.
         unfold field_from_json at 1. cbn [fd_many fd_dyn fd_ty orb].
         change (top_map_leaf b64 (TOption (TName (b "IssuingJurisdiction"))) kvs) with (issuing_jurisdiction_map kvs).
-        assert (Hnn : jget (b "issuing_jurisdiction") kvs <> Some JNull).
-        { intro X. unfold known_record in K. apply first_known_none in K as [_ K]. apply first_known_none in K as [_ K].
-          rewrite X in K. discriminate. }
-        pose proof (jurisdiction_spec kvs {| fd_rust := b "issuing_jurisdiction"; fd_wire := b "issuing_jurisdiction"; fd_ty := TOption (TName (b "IssuingJurisdiction")); fd_many := false; fd_dyn := true |} eq_refl eq_refl Hnn) as J.
+        pose proof (jurisdiction_spec kvs {| fd_rust := b "issuing_jurisdiction"; fd_wire := b "issuing_jurisdiction"; fd_ty := TOption (TName (b "IssuingJurisdiction")); fd_many := false; fd_dyn := true |} eq_refl eq_refl) as J.
         destruct (issuing_jurisdiction_map kvs) as [fv|e|p]; [|exact J|exact J].
         intro Hall. apply J.
         (* issuing_country is a mandatory field of the same struct: Ok means it is present *)
@@ -261,12 +262,7 @@ Section Top.
         unfold field_ok.
         unfold field_from_json at 1. cbn [fd_many fd_dyn fd_ty orb].
         change (top_map_leaf b64 (TName (b "BiometricTemplate")) kvs) with (rmap FMany (biometric_entries b64 kvs)).
-        assert (Hne : forall k j, In (k, j) kvs -> strip_prefix c19_biometric_prefix k <> Some []).
-        { intros k j Hkj X. apply strip_prefix_some in X. rewrite app_nil_r in X. subst k.
-          unfold known_record in K. apply first_known_none in K as [_ K]. apply first_known_none in K as [K _].
-          apply (In_jget kvs _ _ Hnd) in Hkj. change (b "biometric_template_") with c19_biometric_prefix in K.
-          rewrite Hkj in K. discriminate. }
-        pose proof (bio_entries_spec kvs Hne) as A.
+        pose proof (bio_entries_spec kvs) as A.
         destruct (biometric_entries b64 kvs) as [l|e|p]; cbn [rmap].
         * destruct A as [A1 A2]. intros _. split.
           -- unfold row_dom. cbn [bio_row dm_presence dm_id dm_class]. apply forallb_forall. intros [k j] Hkj. cbn [fst snd].
@@ -289,5 +285,48 @@ Section Top.
       intros f r Hin Hrow. apply Hreg; try assumption; [|exact fields_iso_aamva].
       change (ns_fields Aamva) with struct_aamva_OrgIso1801351Aamva in Hin. unfold struct_aamva_OrgIso1801351Aamva in Hin. cbn [In] in Hin.
       repeat (destruct Hin as [<-|Hin]; [reflexivity|]). destruct Hin.
+  Qed.
+
+  (* ---------- no conversion of either namespace can panic, whatever the JSON value ---------- *)
+
+  Lemma iso_row n fds dm f : map (row_of_field n) fds = map Some dm -> In f fds -> exists r, In r dm /\ row_of_field n f = Some r.
+  Proof.
+    intros Hiso Hf. apply (in_map (row_of_field n)) in Hf. rewrite Hiso in Hf.
+    apply in_map_iff in Hf as (r & E & Hr). exists r. split; [exact Hr|congruence].
+  Qed.
+
+  Lemma field_no_panic n kvs f s : In f (ns_fields n) ->
+    field_from_json (ty_leaf (name_leaf b64 spec_fuel n)) (top_map_leaf b64) f kvs <> Panic s.
+  Proof.
+    intros Hin HP.
+    assert (Hiso : map (row_of_field n) (ns_fields n) = map Some (ns_dm n)) by (destruct n; [exact fields_iso_mdl|exact fields_iso_aamva]).
+    destruct (fd_many f || fd_dyn f) eqn:R.
+    - destruct n.
+      + change (ns_fields Mdl) with struct_mdl_OrgIso1801351 in Hin. unfold struct_mdl_OrgIso1801351 in Hin. cbn [In] in Hin.
+        repeat (destruct Hin as [<-|Hin]; [try (cbn in R; discriminate R)|]); [| | |destruct Hin];
+          unfold field_from_json in HP; cbn [fd_many fd_dyn fd_ty orb] in HP.
+        * change (top_map_leaf b64 (TName (b "AgeOver")) kvs) with (rmap FMany (age_over_entries kvs)) in HP.
+          pose proof (age_entries_spec kvs) as A. destruct (age_over_entries kvs); [discriminate|discriminate|exact A].
+        * change (top_map_leaf b64 (TOption (TName (b "IssuingJurisdiction"))) kvs) with (issuing_jurisdiction_map kvs) in HP.
+          pose proof (jurisdiction_spec kvs {| fd_rust := b "issuing_jurisdiction"; fd_wire := b "issuing_jurisdiction"; fd_ty := TOption (TName (b "IssuingJurisdiction")); fd_many := false; fd_dyn := true |} eq_refl eq_refl) as J.
+          destruct (issuing_jurisdiction_map kvs); [discriminate|discriminate|exact J].
+        * change (top_map_leaf b64 (TName (b "BiometricTemplate")) kvs) with (rmap FMany (biometric_entries b64 kvs)) in HP.
+          pose proof (bio_entries_spec kvs) as A. destruct (biometric_entries b64 kvs); [discriminate|discriminate|exact A].
+      + change (ns_fields Aamva) with struct_aamva_OrgIso1801351Aamva in Hin. unfold struct_aamva_OrgIso1801351Aamva in Hin. cbn [In] in Hin.
+        repeat (destruct Hin as [<-|Hin]; [cbn in R; discriminate R|]). destruct Hin.
+    - destruct (iso_row n _ _ f Hiso Hin) as (r & Hr & Hrow).
+      pose proof (regular_field_ok b64 spec_fuel n (top_map_leaf b64) (ns_fields n) (ns_dm n) kvs f r
+                    (name_leaf_spec b64 spec_fuel n) Hrow R Hr) as F.
+      unfold field_ok in F. rewrite HP in F. exact F.
+  Qed.
+
+  Theorem ns_no_panic n j s : ns_from_json b64 n j <> Panic s.
+  Proof.
+    unfold ns_from_json, top_leaf. change top_fuel with spec_fuel.
+    destruct j; try discriminate. cbn [struct_from_json].
+    destruct (run_fields (ty_leaf (name_leaf b64 spec_fuel n)) (top_map_leaf b64) (ns_fields n) kvs) as [vals errs|p] eqn:Rn.
+    - destruct errs as [|e1 [|e2 es]]; discriminate.
+    - intro H. inversion H; subst p. apply run_fields_panic in Rn as (f & Hf & HP).
+      exact (field_no_panic n kvs f s Hf HP).
   Qed.
 End Top.
